@@ -1,8 +1,8 @@
 CONSTANTS
   Kind = "set"
   Rows = {0, 100}
-  Cols = {0, 2}
-  Ops = {"SetBit","ClearBit","SetRow","ClearRow","BulkSet","BulkClear","RoaringSet","RoaringClear","Snapshot","Enqueue","BgSnapshot","Reopen","Row","Bit","Rows","ForEachBit","Blocks","BlockData"}
+  Cols = {0}
+  Ops = {"SetBit","ClearBit","SetRow","ClearRow","BulkSet","BulkClear","RoaringSet","RoaringClear","Snapshot","Enqueue","BgSnapshot","Reopen","Row","Blocks"}
   Scope = "small"
   Depth = 0
   ShapeName = "free"
